@@ -92,6 +92,18 @@ def teval(t: Term, env: dict):
         return ev(a[0]).ljust(*[ev(x) for x in a[1:]])
     if op == "meth:get":
         return ev(a[0]).get(*[ev(x) for x in a[1:]])
+    if op.startswith("meth:") and op[5:] in ("startswith", "endswith", "lower", "upper", "strip", "replace", "split", "hex",
+                                               "encode", "decode", "isnumeric", "isdigit", "count", "find", "join", "zfill"):
+        try:
+            return getattr(ev(a[0]), op[5:])(*[ev(x) for x in a[1:]])
+        except Unknown:
+            raise
+        except Exception as e:
+            raise Unknown(f"{op}: {e}")
+    if op in ("str", "call:str"):
+        return str(ev(a[0]))
+    if op == "call:int":
+        return int(ev(a[0]))
     if op == "call:math.ceil":
         import math
         return math.ceil(ev(a[0]))
